@@ -10,6 +10,8 @@ import (
 	"strconv"
 	"testing"
 
+	"github.com/blugelabs/bluge/analysis"
+
 	"verifharness/vlib"
 )
 
@@ -177,15 +179,26 @@ func FuzzAnalyze(f *testing.F) {
 	for i, s := range fuzzSeeds {
 		f.Add(uint8((i*7)%len(subjects)), []byte(s))
 	}
+	built := make([]*analysis.Analyzer, len(subjects)) // one per subject and worker process
 	f.Fuzz(func(t *testing.T, which uint8, data []byte) {
 		if len(data) > 1<<16 {
 			return
 		}
-		s := subjects[int(which)%len(subjects)]
+		si := int(which) % len(subjects)
+		s := subjects[si]
 		h := dataHash(data)
-		// the round trip costs ~100x the analysis: judge it on a deterministic eighth of the inputs
-		c := mkCase(s, data, len(data) <= 512 && h%8 == 0, h%16 == 0)
-		fail, _ := evaluate(c)
+		if built[si] == nil {
+			a, err := build(s)
+			if err != nil {
+				t.Fatalf("harness: %v", err)
+			}
+			built[si] = a
+		}
+		// the round trip costs ~100x the analysis and constructing the analyzers ~10x: both are judged
+		// on a deterministic fraction of the inputs
+		c := Case{Spec: s, Input: data, RoundTrip: len(data) <= 512 && h%64 == 0, Store: h%128 == 0}
+		fail, _ := evaluateWith(c, built[si], h%16 == 1)
+		c.Quoted = strconv.Quote(string(data))
 		if fail == nil {
 			return
 		}
